@@ -137,10 +137,12 @@ CHECKS["C08"] = (
 CHECKS["C11"] = (
     "model_checking",
     "explicit-state search over update/evaluate histories on real model graphs with state hashing, differential oracle against a fresh rebuild",
-    "On 14 model graphs (11 generated by torchtree-cli and committed as JSON fixtures: unrooted GTR+W4+I with "
+    "On 33 model graphs (11 generated by torchtree-cli and committed as JSON fixtures: unrooted GTR+W4+I with "
     "gamma-Dirichlet prior, strict/ucln/horseshoe clocks, skygrid+GMRF, skyride, skyglide, exponential, BDSK, "
-    "SRD06 with views, MG94, HMC and ADVI set-ups; 3 hand-written ones with views, concatenations and "
-    "transforms that hold parameters) every history over the alphabet {assign each base parameter (2 values), "
+    "SRD06 with views, MG94, HMC and ADVI set-ups; 5 hand-written ones with views, concatenations, "
+    "transforms that hold parameters, a plain time tree and the constant birth-death prior; 17 from the families "
+    "of the gradient check: all tree priors incl. the integrated ones, GMRF variants, scale mixture, Bayesian "
+    "bridge, multivariate normal, general substitution models, unrooted) every history over the alphabet {assign each base parameter (2 values), "
     "assign through every invertible derived parameter, in-place change + notification, operator "
     "step+accept / step+reject, draws by distributions, objective evaluation, evaluate one model, evaluate "
     "all} is executed on a freshly built graph up to depth 2 (full alphabet; thorough 3) and depth 3 (reduced "
